@@ -197,6 +197,7 @@ Not decided: that every mentioned name is declared or imported (program dependen
     shapes(m, ctx);
     dispatch_agreement(m, ctx, "C18.dispatch", "Typescript", "generate", "t.ty");
     comment_lines(m, ctx);
+    crate::rules::c01::instance_of(m, ctx, "C18.instanceof");
     enumeral_comment_lines(m, ctx);
     bit_string_shape(m, ctx);
     imports(m, ctx);
